@@ -6,7 +6,7 @@
      middleware/sampler.go          fixedSampler.Sample, adaptiveSampler.Sample
      http/middleware/trace.go       Trace, tracedDoer.Do (WrapDoer)
      grpc/middleware/trace.go       withTrace (unary and stream), setTrace (client interceptors)
-     http/middleware/capture.go     ResponseCapture.WriteHeader / Write / Flush
+     http/middleware/capture.go     ResponseCapture.committed / WriteHeader / Write / Flush
    and of the writer underneath a ResponseCapture (net/http semantics: the first
    WriteHeader, Write or Flush commits the status line; later WriteHeader calls are
    ignored), which is what "the status actually written" refers to.
@@ -295,16 +295,21 @@ Fixpoint chain (hops : list hop) (i : thdrs) : list (thdrs * tctx) :=
 Inductive wevent :=
 | WriteHeader (c : Z)
 | Write (n : N)           (* n = the byte count the underlying writer returned *)
-| Flush.
+| Flush.                  (* the writer underneath is a Flusher (net/http, recorder) *)
 
 Record cap := { cap_status : Z; cap_bytes : N }.
 
+(* ResponseCapture.committed: a final status has been recorded (1xx informational
+   codes other than 101 are not final) *)
+Definition final_status (c : Z) : bool := ((200 <=? c) || (c =? 101))%Z.
+
+(* WriteHeader / Write / Flush of ResponseCapture *)
 Definition cap_step (s : cap) (e : wevent) : cap :=
+  let keep := final_status (cap_status s) in
   match e with
-  | WriteHeader c => {| cap_status := c; cap_bytes := cap_bytes s |}
-  | Write n => {| cap_status := if (cap_status s =? 0)%Z then 200%Z else cap_status s;
-                  cap_bytes := (cap_bytes s + n)%N |}
-  | Flush => s
+  | WriteHeader c => {| cap_status := if keep then cap_status s else c; cap_bytes := cap_bytes s |}
+  | Write n => {| cap_status := if keep then cap_status s else 200%Z; cap_bytes := (cap_bytes s + n)%N |}
+  | Flush => {| cap_status := if keep then cap_status s else 200%Z; cap_bytes := cap_bytes s |}
   end.
 
 Definition capture (h : list wevent) : cap := fold_left cap_step h {| cap_status := 0; cap_bytes := 0 |}.
@@ -327,19 +332,10 @@ Definition sent (h : list wevent) : wr := fold_left wr_step h {| w_status := Non
 Definition reported_status (s : cap) : option Z :=
   if (cap_status s =? 0)%Z then None else Some (cap_status s).
 
-Definition valid_code (e : wevent) : bool :=
-  match e with WriteHeader c => ((100 <=? c) && (c <=? 999))%Z | _ => true end.
-
-Definition is_wh (e : wevent) : bool := match e with WriteHeader _ => true | _ => false end.
-
-(* handler discipline under which capture and writer agree: the response is
-   started by WriteHeader or Write, and WriteHeader is not called again afterwards *)
-Definition disciplined (h : list wevent) : bool :=
-  match h with
-  | [] => true
-  | Flush :: _ => false
-  | _ :: r => forallb (fun e => negb (is_wh e)) r
-  end.
+(* histories whose WriteHeader codes are final statuses (>= 200, or 101); the
+   informational 1xx responses of net/http are not modelled *)
+Definition final_code (e : wevent) : bool :=
+  match e with WriteHeader c => final_status c | _ => true end.
 
 Fixpoint sum_writes (h : list wevent) : N :=
   match h with
@@ -347,16 +343,6 @@ Fixpoint sum_writes (h : list wevent) : N :=
   | Write n :: r => (n + sum_writes r)%N
   | _ :: r => sum_writes r
   end.
-
-Fixpoint last_wh (h : list wevent) (acc : option Z) : option Z :=
-  match h with
-  | [] => acc
-  | WriteHeader c :: r => last_wh r (Some c)
-  | _ :: r => last_wh r acc
-  end.
-
-Definition has_write (h : list wevent) : bool :=
-  existsb (fun e => match e with Write _ => true | _ => false end) h.
 
 Definition first_commit (h : list wevent) : option Z :=
   match h with
